@@ -231,10 +231,12 @@ func runC17(c *core.Ctx) {
 		// failures while reading / decoding become Err: the read error is stored on its edge, and a result of the
 		// wrong type without an error of its own gets one
 		readStored, typeStored := false, false
-		errVals := map[ssa.Value]bool{} // values that were stored as Err (a local holding the same error may be tested instead of the field)
+		// values stored as Err, with the store (a local holding the same error may be tested instead of the field,
+		// but only where that store is in effect)
+		errStores := map[ssa.Value][]*ssa.Store{}
 		core.Instrs(dec, func(ins ssa.Instruction) {
 			if st, ok := ins.(*ssa.Store); ok && core.FieldKey(st.Addr) == "ResponseWithError.Err" {
-				errVals[core.Resolve(st.Val)] = true
+				errStores[core.Resolve(st.Val)] = append(errStores[core.Resolve(st.Val)], st)
 			}
 		})
 		core.Instrs(dec, func(ins ssa.Instruction) {
@@ -259,8 +261,15 @@ func runC17(c *core.Ctx) {
 						notOK = true
 					}
 				}
-				if m, isM := core.AsCmp(nn); isM && m.Op == token.EQL && core.IsNilConst(m.Y) && (core.FieldKey(m.X) == "ResponseWithError.Err" || errVals[core.Resolve(m.X)]) {
-					errNil = true
+				if m, isM := core.AsCmp(nn); isM && m.Op == token.EQL && core.IsNilConst(m.Y) {
+					if core.FieldKey(m.X) == "ResponseWithError.Err" {
+						errNil = true
+					}
+					for _, es := range errStores[core.Resolve(m.X)] {
+						if es != st && core.InstrDominates(es, st) {
+							errNil = true
+						}
+					}
 				}
 			}
 			if notOK && errNil && !core.IsNilConst(st.Val) {
